@@ -137,6 +137,23 @@ func EventType(event any) string {
 	return reflect.TypeOf(event).String()
 }
 
+// typeNameOf returns the name under which events of the static type T are
+// persisted: the name EventType reports for a value of that type, so that typed
+// replay subscriptions and typed upcasters find events with a custom type name.
+func typeNameOf[T any]() string {
+	t := reflect.TypeOf((*T)(nil)).Elem()
+	var sample any
+	if t.Kind() == reflect.Pointer {
+		sample = reflect.New(t.Elem()).Interface()
+	} else {
+		sample = reflect.Zero(t).Interface()
+	}
+	if sample == nil {
+		return t.String() // interface types have no value to ask
+	}
+	return EventType(sample)
+}
+
 // Observability is an optional interface for metrics and tracing.
 // Implementations can track event publishing, handler execution, and errors.
 //
